@@ -98,14 +98,23 @@ acl_ip_data::lastAddress() const
     return ip;
 }
 
+/// Byte-wise address order. Unlike the Ip::Address relational operators, this
+/// order has no isAnyAddr()/isNoAddr() special cases: the splay tree needs one
+/// total order that the insertion and the lookup comparators agree on.
+static bool
+AddressLess(const Ip::Address &a, const Ip::Address &b)
+{
+    return a.matchIPAddr(b) < 0;
+}
+
 template <>
 int
 Acl::SplayInserter<acl_ip_data*>::Compare(const Value &a, const Value &b)
 {
-    if (a->lastAddress() < b->firstAddress())
+    if (AddressLess(a->lastAddress(), b->firstAddress()))
         return -1; // the entire range a is to the left of range b
 
-    if (a->firstAddress() > b->lastAddress())
+    if (AddressLess(b->lastAddress(), a->firstAddress()))
         return +1; // the entire range a is to the right of range b
 
     return 0; // equal or partially overlapping ranges
@@ -115,15 +124,15 @@ template <>
 bool
 Acl::SplayInserter<acl_ip_data*>::IsSubset(const Value &a, const Value &b)
 {
-    return b->firstAddress() <= a->firstAddress() && a->lastAddress() <= b->lastAddress();
+    return !AddressLess(a->firstAddress(), b->firstAddress()) && !AddressLess(b->lastAddress(), a->lastAddress());
 }
 
 template <>
 Acl::SplayInserter<acl_ip_data*>::Value
 Acl::SplayInserter<acl_ip_data*>::MakeCombinedValue(const Value &a, const Value &b)
 {
-    const auto minLeft = std::min(a->firstAddress(), b->firstAddress());
-    const auto maxRight = std::max(a->lastAddress(), b->lastAddress());
+    const auto minLeft = std::min(a->firstAddress(), b->firstAddress(), AddressLess);
+    const auto maxRight = std::max(a->lastAddress(), b->lastAddress(), AddressLess);
     return new acl_ip_data(minLeft, maxRight, Ip::Address::NoAddr(), nullptr);
 }
 
@@ -160,7 +169,7 @@ aclIpAddrNetworkCompare(acl_ip_data * const &p, acl_ip_data * const &q)
 
     } else {                   /* range address check */
 
-        if ( (A >= q->addr1) && (A <= q->addr2) )
+        if (!AddressLess(A, q->addr1) && !AddressLess(q->addr2, A))
             return 0; /* valid. inside range. */
         else
             return A.matchIPAddr( q->addr1 ); /* outside of range, 'less than' */
